@@ -6,7 +6,10 @@ The harness replays `Apply::apply_fixpoint` pass by pass (bound: 400 extra passe
 and prints `(passes n G (trace (size mu gen qn scope def) ..))`; `(nonterminating n)` is a
 violation with the input as the failing input; so is a trace that does not decrease (the theorem
 is about the model: a non-decreasing trace of the implementation means model and code differ in a
-way that matters for termination).  `(toolarge n)` is not a violation (the result of substituting a
+way that matters for termination).  `(apply-fixpoint-differs n G)` - the replay converged after n passes but the real
+`Formula::apply_fixpoint`, run afterwards on the same input, returned G - is a violation with the input
+as the failing input (the semantic op `sem_classic_passes` additionally shows that G is not a fixpoint).
+`(toolarge n)` is not a violation (the result of substituting a
 chain of definitions is exponentially large; the loop still terminates) but it is counted.
 The hook fills the evidence: histogram of pass counts, maximum growth factor (largest intermediate
 size / input size, terms included), maximum of passes / (mu + 1), and how often each component of
@@ -29,12 +32,16 @@ def extra(ctx, cfg, results):
         passes = {}
         decided = {c: 0 for c in COMPONENTS}
         bad_nt, bad_trace, toolarge, panics = [], [], 0, 0
+        bad_fix = []
         max_growth = (0.0, None)
         max_ratio = (0.0, None)
         max_passes = (0, None)
         for i, o in enumerate(impl):
             if o.startswith("(nonterminating"):
                 bad_nt.append(i)
+                continue
+            if o.startswith("(apply-fixpoint-differs"):
+                bad_fix.append(i)
                 continue
             if o.startswith("(toolarge"):
                 toolarge += 1
@@ -79,6 +86,15 @@ def extra(ctx, cfg, results):
             ctx.violation(f"the fixpoint strategy with the classic portfolio does not terminate on an input of `{op}` (400 extra passes of the real Apply::apply still change the formula)",
                           {"kind": "correspondence", "op": op, "input": inputs[i], "implementation": impl[i], "model": model[i],
                            "nonterminating_cases": len(bad_nt)}, True)
+        if bad_fix:
+            # the replay converged after n passes, the real Formula::apply_fixpoint (called on the same
+            # input afterwards) returned another formula: the loop of /repo is not the loop of the model
+            i = min(bad_fix, key=lambda k: len(inputs[k]))
+            ctx.violation(f"the real Apply::apply_fixpoint does not return the fixpoint that iterating the real Apply::apply reaches on an input of `{op}` "
+                          "(its result is not simplified to a fixpoint: simplifying it again changes it)",
+                          {"kind": "correspondence", "op": op, "input": inputs[i], "implementation": impl[i], "model": model[i],
+                           "sem_op": "sem_" + op, "cases": len(bad_fix)}, True)
+        d["apply_fixpoint_differs"] = len(bad_fix)
         if bad_trace:
             i = min(bad_trace, key=lambda k: len(inputs[k]))
             ctx.violation(f"the termination measure (mu, m_gen, m_qn, m_scope, m_def) does not decrease along the real run of `{op}`",
